@@ -693,6 +693,16 @@ class Simulation(Structure):
                 raise ValueError("Warning. Gravity module not found.")
 
     @property
+    def gravity_ignore(self):
+        """
+        Alias of gravity_ignore_terms (the name used by the C structure and the documentation). Kept for backwards compatibility.
+        """
+        return self.gravity_ignore_terms
+    @gravity_ignore.setter
+    def gravity_ignore(self, value):
+        self.gravity_ignore_terms = value
+
+    @property
     def collision(self):
         """
         Get or set the collision module.
@@ -1510,7 +1520,7 @@ Simulation._fields_ = [
                 ("_status", c_int),
                 ("exact_finish_time", c_int),
                 ("force_is_velocity_dependent", c_uint),
-                ("gravity_ignore", c_uint),
+                ("gravity_ignore_terms", c_uint),
                 ("_output_timing_last", c_double),
                 ("save_messages", c_int),
                 ("messages", c_void_p),
